@@ -141,9 +141,9 @@ def extractor_specs():
 
 def strategy():
     return st.builds(
-        lambda p, ex: {"program": p, "extractors": ex},
-        P.programs(max_nodes=12, remote=True),
+        lambda ex, p: {"program": p, "extractors": ex},
         extractor_specs(),
+        P.programs(max_nodes=12, remote=True),
     )
 
 
